@@ -609,6 +609,19 @@ impl DeriveShape for Expression {
             Expression::Binary(def) => {
                 let left_shape = def.left.derive_shape(symbol_table);
                 if def.kind == BinaryExprType::DOT {
+                    // A tuple shape inferred from the way an argument is used
+                    // lists only the fields seen so far. Another field adds
+                    // to it.
+                    if let Some((name, fields)) =
+                        inferred_tuple_missing_field(&left_shape, &def.left, &def.right)
+                    {
+                        let any = Shape::Narrowed(NarrowedShape {
+                            pos: left_shape.pos().clone(),
+                            types: NarrowingShape::Any,
+                        });
+                        symbol_table.insert(name, Shape::Tuple(fields));
+                        return any.with_pos(def.pos.clone());
+                    }
                     let shape =
                         derive_dot_expression(&def.pos, &left_shape, &def.right, symbol_table);
                     // Update the symbol table with the inferred left shape
@@ -758,6 +771,51 @@ fn narrow_operands(
         (_, _, Shape::TypeErr(_, msg)) => Shape::TypeErr(def.right.pos().clone(), msg),
         (_, _, narrowed) => narrowed,
     }
+}
+
+/// If `left_shape` is the tuple shape that `infer_container_shape_from_dot`
+/// made up for the symbol `left` and it has no field `right` yet, returns the
+/// symbol and the tuple shape with that field added. Such a tuple and all its
+/// fields sit at the position of the symbol they were inferred for. No tuple
+/// literal does.
+fn inferred_tuple_missing_field(
+    left_shape: &Shape,
+    left: &Expression,
+    right: &Expression,
+) -> Option<(Rc<str>, PositionedItem<TupleShape>)> {
+    let (tshape, name, field) = match (left_shape, left, right) {
+        (
+            Shape::Tuple(tshape),
+            Expression::Simple(Value::Symbol(name)),
+            Expression::Simple(Value::Symbol(field)),
+        )
+        | (
+            Shape::Tuple(tshape),
+            Expression::Simple(Value::Symbol(name)),
+            Expression::Simple(Value::Str(field)),
+        ) => (tshape, name, field),
+        _ => return None,
+    };
+    let inferred = !tshape.val.is_empty()
+        && tshape.val.iter().all(|(_, s)| match s {
+            Shape::Narrowed(NarrowedShape {
+                pos,
+                types: NarrowingShape::Any,
+            }) => *pos == tshape.pos,
+            _ => false,
+        });
+    if !inferred || tshape.val.iter().any(|(n, _)| n.val == field.val) {
+        return None;
+    }
+    let mut fields = tshape.val.clone();
+    fields.push((
+        PositionedItem::new(field.val.clone(), field.pos.clone()),
+        Shape::Narrowed(NarrowedShape {
+            pos: tshape.pos.clone(),
+            types: NarrowingShape::Any,
+        }),
+    ));
+    Some((name.val.clone(), PositionedItem::new(fields, tshape.pos.clone())))
 }
 
 /// Infer the container shape from a dot expression.
